@@ -28,7 +28,7 @@ def mk(status, headers, **kw):
     c["py_headers"] = headers
     c["strs"] = {"status": rc.cp(status), "fields": [{"n": rc.cp(n), "v": rc.cp(v), "lname": n.lower() if isinstance(n, str) else ""} for n, v in headers]}
     c["offending"] = [status] + [x for h in headers for x in h]
-    for k in ("sr_twice", "mutate_after"):
+    for k in ("sr_twice", "mutate_after", "swallow", "mutate_inner"):
         if k in kw:
             c[k] = kw[k]
     return c
@@ -68,10 +68,30 @@ def cases(thorough):
         c["strs"] = {"status": rc.cp("503 Later" + bad), "fields": [{"n": rc.cp("X-Second"), "v": rc.cp("2"), "lname": "x-second"}]}
         c["offending"] = [bad]
         out.append(c)
+    # an application that swallows the refusal and returns its body all the same: whatever head goes out, the refused
+    # strings are not in it
+    for bad in ("\r\nX-Injected: yes", "\nX-Injected: yes", "\rX"):
+        for st in ("200 OK" + bad, "200" + bad + " OK", bad + "200 OK"):
+            c = mk(st, [["X-App", "v1"]], swallow=True)
+            c["offending"] = [st, bad]
+            out.append(c)
+        for hv in ("v" + bad, bad + "v"):
+            c = mk("200 OK", [["X-App", hv]], swallow=True)
+            c["offending"] = [hv, bad]
+            out.append(c)
+            c = mk("200 OK", [[("X-App" + bad), "v1"]], swallow=True)
+            c["offending"] = [bad]
+            out.append(c)
     # header list mutated after start_response returned: late entries are not the application's header fields
     for late in (["X-Late", "a\r\nSet-Cookie: pwned=1"], ["Upgrade", "websocket"], ["X-Late", "fine"]):
         c = mk("200 OK", [["X-First", "1"]], mutate_after=late)
         c["offending"] = [late[1]]
+        out.append(c)
+    # header items handed over as lists and changed in place after start_response returned: what was validated is
+    # what is sent
+    for j, late in ((1, "a\r\nSet-Cookie: pwned=1"), (0, "X-First\r\nX-Injected"), (1, "a\nb"), (0, "Upgrade")):
+        c = mk("200 OK", [["X-First", "1"]], mutate_inner=[0, j, late])
+        c["offending"] = [late]
         out.append(c)
     return out
 
